@@ -312,11 +312,42 @@ def _rows(repo, col, fi, ex):
                   f"dropped rows: {dr.short(100) if dr else None}", node=st.node)
     ok = T.find(v, lambda x: x.op == "mcall" and x.name == "reset_index") is not None
     col.check(ok, R, fi, "row labels are renumbered densely", "reset_index(drop=True)", "row labels are not reset", node=st.node)
-    ok = "all_nodes['global_comp_index'] = np.arange(len(all_nodes))" in src
-    col.check(ok, R, fi, "global_comp_index is renumbered densely", "np.arange(len(all_nodes))", "global_comp_index is not renumbered", node=st.node)
-    # new rows repeat ncomp times
-    ok = "pd.concat([*[average_row] * ncomp], axis='rows')" in src
-    col.check(ok, R, fi, "the branch gets exactly `ncomp` new rows", "[average_row] * ncomp", "number of new rows is not the requested ncomp", node=st.node)
+    # dense renumbering of the global compartment index of the rebuilt table
+    ren = [s_ for s_ in ex.stores if s_.kind == "sub" and s_.key.op == "const" and s_.key.name == "global_comp_index" and
+           T.find(s_.base, lambda x: x.op == "mcall" and x.name == "concat") is not None]
+    if not ren:
+        col.bad(R, fi, "global_comp_index is renumbered densely", "the rebuilt node table keeps the old global compartment indices: rows after "
+                "the branch are no longer numbered consecutively", node=st.node)
+    for s_ in ren:
+        val = s_.value
+        cnt = None
+        if val.op in ("mcall", "call") and val.name in ("arange", "range") and len(val.args) == (2 if val.op == "mcall" else 1):
+            cnt = val.args[-1]
+        dense = cnt is not None and (
+            (cnt.op == "call" and cnt.name == "len" and cnt.args[0].key() == s_.base.key()) or
+            (cnt.op == "sub" and cnt.args[0].op == "attr" and cnt.args[0].name == "shape" and cnt.args[0].args[0].key() == s_.base.key() and
+             cnt.args[1].op == "const" and cnt.args[1].name == 0))
+        dense = dense or (val.op == "attr" and val.name == "index" and T.find(val, lambda x: x.op == "mcall" and x.name == "reset_index") is not None)
+        col.check(dense, R, fi, "global_comp_index is renumbered densely", "0 .. number of rows - 1 of the rebuilt table",
+                  f"global_comp_index of the rebuilt table is set to {val.short(80)}, not to 0 .. (number of rows - 1)", node=s_.node)
+    # the new block has exactly the requested number of rows
+    cnt = None
+    if cat is not None and cat.args[1].op == "list" and len(cat.args[1].args) == 3:
+        blk = cat.args[1].args[1]
+        for x in blk.walk():
+            if x.op == "binop" and x.name == "*" and any(y.op == "list" for y in x.args):
+                cnt = next(y for y in x.args if y.op != "list")
+            elif x.op == "comp" and len(x.args) == 2 and x.args[1].op == "call" and x.args[1].name == "range" and len(x.args[1].args) == 1:
+                cnt = x.args[1].args[0]
+            elif x.op in ("mcall", "call") and x.name in ("repeat", "tile") and len(x.args) >= 2:
+                cnt = x.kw.get("repeats") or x.args[-1]
+            if cnt is not None:
+                break
+    if cnt is None:
+        col.unk(R, fi, "the branch gets exactly `ncomp` new rows", "repetition count of the new rows not found", node=st.node)
+    else:
+        col.check(cnt.op == "param" and cnt.name == "ncomp", R, fi, "the branch gets exactly `ncomp` new rows", "the averaged row repeated ncomp times",
+                  f"the new rows are repeated {cnt.short(40)} times, not the requested ncomp", node=st.node)
 
 
 def _reinit(repo, col, fi, ex):
